@@ -8,7 +8,7 @@
 From Coq Require Import ZArith Reals Lra Lia Bool List.
 From Coq Require Import Uint63 Floats.
 From Flocq Require Import Core BinarySingleNaN PrimFloat.
-From PyLib Require Import PyVal PyBuiltins B64 B64Verified Whnf PyEval.
+From PyLib Require Import PyVal PyBuiltins B64 B64Verified Whnf PyEval B64Eval.
 From Spec Require Import AngleSpec.
 From Gen Require Import M_base M_Angle.
 Import ListNotations.
@@ -16,64 +16,6 @@ Import ListNotations.
 (* symbolic evaluation of the generated model in the binary64 instance with an abstract float:
    weak-head steps (Whnf), binds call-by-value; a stuck primitive comparison is normalised and
    decided by a hypothesis of the context, or computed if it is closed *)
-From Ltac2 Require Ltac2.
-Ltac2 Set Whnf.is_blocked as old := fun c =>
-  Ltac2.Bool.or (old c)
-    (Ltac2.List.exist (Ltac2.Constr.equal c)
-       ['PrimFloat.leb; 'PrimFloat.ltb; 'PrimFloat.eqb; 'PrimFloat.compare; 'PrimFloat.abs; 'PrimFloat.opp;
-        'PrimFloat.add; 'PrimFloat.sub; 'PrimFloat.mul; 'PrimFloat.div; 'PrimFloat.sqrt; 'PrimFloat.classify;
-        'PrimFloat.of_uint63; 'PrimFloat.normfr_mantissa; 'PrimFloat.frshiftexp; 'PrimFloat.ldshiftexp;
-        'b64_floor; 'b64_trunc; 'b64_fmod; 'b64_of_Z; 'b64_round]).
-
-Ltac b64_decide s :=
-  let s' := eval cbv -[b64_floor b64_trunc b64_fmod b64_of_Z] in s in
-  change s with s';
-  first [ match goal with H : s' = _ |- _ => rewrite H end
-        | match goal with H : ?l = ?b |- _ =>
-            lazymatch type of l with bool => idtac end;
-            unify l s'; change s' with l; rewrite H end
-        | timeout 2 (let v := eval vm_compute in s' in
-          lazymatch v with true => change s' with true | false => change s' with false end)
-        | idtac "b64run: cannot decide" s'; fail 1 ].
-
-Ltac b64run :=
-  whnf_lhs;
-  lazymatch goal with
-  | |- ?l = _ =>
-    tryif is_canon l then idtac else
-    first [
-      lazymatch l with
-      | bind ?e ?k =>
-          tryif is_canon e then
-            lazymatch e with
-            | VErr _ => rewrite (bind_err _ k)
-            | _ => rewrite (bind_ok e k) by reflexivity; cbv beta
-            end
-          else
-            let H := fresh "Hev" in
-            eassert (H : e = _) by (b64run; py_canon_refl);
-            rewrite H; clear H
-      | _ =>
-          pose_stuck;
-          lazymatch goal with
-          | py_stuck := ?s |- _ =>
-              clear py_stuck;
-              lazymatch s with
-              | bind ?e ?k =>
-                  let H := fresh "Hev" in
-                  eassert (H : bind e k = _) by (b64run; py_canon_refl);
-                  rewrite H; clear H
-              | _ => lazymatch type of s with
-                     | bool => b64_decide s
-                     | _ => idtac "b64run: stuck on" s; fail
-                     end
-              end
-          end
-      end;
-      b64run
-    | idtac ]
-  end.
-
 Open Scope R_scope.
 
 Lemma RV_360 : RV 0x1.68p+8%float = 360.
